@@ -169,6 +169,19 @@ func projOptions4(o dhcpv4.Options) []any {
 	return l
 }
 
+// ipForm returns an IPv4 address in one of the two forms a net.IP can have (4 or 16 octets); which one a program holds
+// depends on where it got the address from (net.ParseIP and net.IPv4 give 16, To4 and decoders give 4)
+func ipForm(rng *rand.Rand, ip net.IP) net.IP {
+	v4 := ip.To4()
+	if v4 == nil {
+		return ip
+	}
+	if rng.Intn(2) == 0 {
+		return net.IPv4(v4[0], v4[1], v4[2], v4[3])
+	}
+	return append(net.IP(nil), v4...)
+}
+
 func projRoutes(rs []*dhcpv4.Route) []any {
 	l := []any{}
 	for _, r := range rs {
@@ -596,9 +609,9 @@ func genC17(o *Out, rng *rand.Rand, tier string) {
 			cl = append(cl, c)
 		}
 		modget("ParameterRequestList", dhcpv4.WithRequestedOptions(codes...), cl, 55)
-		ip, ip2 := net.IP(randBytes(rng, 4)), net.IP(randBytes(rng, 4))
-		modget("Router", dhcpv4.WithRouter(ip, ip2), []any{B(ip), B(ip2)}, 3)
-		modget("DNS", dhcpv4.WithDNS(ip2), []any{B(ip2)}, 6)
+		ip, ip2 := ipForm(rng, net.IP(randBytes(rng, 4))), ipForm(rng, net.IP(randBytes(rng, 4)))
+		modget("Router", dhcpv4.WithRouter(ip, ip2), []any{B(ip.To4()), B(ip2.To4())}, 3)
+		modget("DNS", dhcpv4.WithDNS(ip2), []any{B(ip2.To4())}, 6)
 		m := net.CIDRMask(rng.Intn(33), 32)
 		modget("SubnetMask", dhcpv4.WithNetmask(m), B(m), 1)
 		secs := rng.Uint32()
@@ -620,8 +633,8 @@ func genC17(o *Out, rng *rand.Rand, tier string) {
 		ips := make([]net.IP, 1+rng.Intn(4))
 		ipl := []any{}
 		for j := range ips {
-			ips[j] = net.IP(randBytes(rng, 4))
-			ipl = append(ipl, B(ips[j]))
+			ips[j] = ipForm(rng, net.IP(randBytes(rng, 4))) // either form of an IPv4 address, as programs have them
+			ipl = append(ipl, B(ips[j].To4()))
 		}
 		setget("Router", dhcpv4.OptRouter(ips...), ipl)
 		setget("DNS", dhcpv4.OptDNS(ips...), ipl)
@@ -665,7 +678,7 @@ func genC17(o *Out, rng *rand.Rand, tier string) {
 			w := pick(rng, 0, 1, 7, 8, 9, 24, 25, 32, rng.Intn(33))
 			dst := make(net.IP, 4)
 			copy(dst, randBytes(rng, (w+7)/8))
-			routes = append(routes, &dhcpv4.Route{Dest: &net.IPNet{IP: dst, Mask: net.CIDRMask(w, 32)}, Router: net.IP(randBytes(rng, 4))})
+			routes = append(routes, &dhcpv4.Route{Dest: &net.IPNet{IP: ipForm(rng, dst), Mask: net.CIDRMask(w, 32)}, Router: ipForm(rng, net.IP(randBytes(rng, 4)))})
 		}
 		setget("ClasslessStaticRoute", dhcpv4.OptClasslessStaticRoute(routes...), projRoutes(routes))
 		var archs []iana.Arch
